@@ -90,6 +90,18 @@ def add_dup_nested(ch, spec):
     return spec
 
 
+def add_cross_level_dup(ch, spec):
+    """an outer node and a node inside a nested workflow with the same identity: the
+    outer one goes to the pool while the nested workflow (awaited inline, with its own
+    de-duplication table) submits the identical job"""
+    sub = {"nodes": [{"name": "cxi0", "label": "cx", "kind": "tok", "ins": {"a": ["x"]}, "split": None, "combine": None}], "out": "cxi0", "late": []}
+    spec["nodes"].insert(0, {"name": "cx", "label": "cx", "kind": "tok", "ins": {"a": ["x"]}, "split": None, "combine": None})
+    spec["nodes"].insert(1, {"name": "cxw", "label": "cxw", "kind": "wf", "ins": {"a": ["x"]}, "split": None, "combine": None, "sub": sub})
+    spec["nodes"].append({"name": "cxout", "label": "cxout", "kind": "tok", "ins": {"a": ["n", "cx"], "b": ["n", "cxw"]}, "split": None, "combine": None})
+    spec["out"] = "cxout"
+    return spec
+
+
 def add_back_edge(ch, spec):
     """C18: close a cycle through late input assignment: dst gets an input from a node
     that (transitively) depends on dst."""
